@@ -19,7 +19,9 @@ real-loop drain oracle of `harness/props/c02.py`, not by a theorem (see DESIGN.m
 import SshuttleModel.Props.C01
 import SshuttleModel.Lemmas.SockInv
 import SshuttleModel.Lemmas.Progress
+import SshuttleModel.Lemmas.Fixpoint
 import SshuttleModel.Props.C08
+import SshuttleModel.Props.C09
 import SshuttleModel.Spec.Quiet
 
 namespace Sshuttle.Tunnel
@@ -656,6 +658,114 @@ theorem C02_finished_noticed_in_callback (p : ProxyS) (m : MuxL) (e : ESock) (io
   cases sf <;> cases sw <;> cases ww <;> cases wr <;> cases sr <;>
     simp_all [ProxyS.preSelectFlags, MuxW.noread, SockW.noread]
 
+/-! ### No stuck state: a world in which the loop's own moves change nothing is quiet -/
+
+theorem step_fix {w : World} {st : Step} (hd : w.died = none) (h : w.step st = w) : w.stepRaw st = w := by
+  unfold World.step at h
+  simp only [hd, Option.isSome_none, Bool.false_eq_true, ↓reduceIte] at h
+  by_cases hs : (w.stepRaw st).died.isSome = true
+  · rw [if_pos hs] at h
+    have : w.died = (w.stepRaw st).died := by
+      have := congrArg World.died h
+      simpa using this.symm
+    rw [hd] at this; rw [← this] at hs; cases hs
+  · rw [if_neg hs] at h; exact h
+
+theorem handler_fix_quiet (p : ProxyS) (m : MuxL) (e : ESock) (hse : SE p.sw e) (htf : m.tooFull = false)
+    (h : p.callback m e fullIo = .ok p m e) : HQ (some p) e := by
+  intro q hq
+  injection hq with hq; subst hq
+  obtain ⟨a1, a2, a3, a4, a5, a6, a7, a8⟩ := callback_fixpoint p m e hse htf h
+  exact ⟨a1, by rw [a2]; rfl, by rw [a3]; rfl, a4, a5, a6, a7, a8⟩
+
+/-- **No stuck state.**  Take any reachable, alive world (any schedule, any faults, any number of
+flows, latency control on or off).  If none of the select loop's own moves changes it — delivering
+the next frame in either direction, and a callback of any handler on either end with every socket
+ready — then the world is `Quiet`; by `C02_quiet_complete` everything written has then been
+delivered, every close has been passed on and finished flows are completely shut.  Equivalently:
+in every reachable state that is not yet complete, some move of the loop makes a difference. -/
+theorem C02_no_stuck_state (w0 : World) (h0 : w0.flows = []) (hf : w0.cm.tooFull = false ∧ w0.sm.tooFull = false)
+    (steps : List Step) (hd : (w0.run steps).died = none)
+    (hdc : (w0.run steps).step (.deliver .client .ok) = w0.run steps)
+    (hds : (w0.run steps).step (.deliver .server .ok) = w0.run steps)
+    (hcb : ∀ e i, (w0.run steps).step (.cb e i fullIo) = w0.run steps) :
+    Quiet (w0.run steps) := by
+  have hfs := reach_flowSock w0 h0 steps
+  have hdrain := C09_drained_not_full w0 hf steps
+  generalize w0.run steps = w at hd hdc hds hcb hfs hdrain
+  have hcm : w.cm.out = [] := by
+    have hr := step_fix hd hds
+    simp only [World.stepRaw] at hr
+    rcases deliverS_mux w .ok with ⟨_, _, h⟩ | ⟨fr, rest, ho, hc, _⟩
+    · exact h
+    · exfalso
+      rw [hr] at hc
+      have := congrArg MuxL.out hc
+      rw [ho] at this
+      simp only at this
+      have hl := congrArg List.length this
+      simp at hl
+  have hsm : w.sm.out = [] := by
+    have hr := step_fix hd hdc
+    simp only [World.stepRaw] at hr
+    rcases deliverC_mux w with ⟨_, _, h⟩ | ⟨fr, rest, ho, hc, _⟩
+    · exact h
+    · exfalso
+      rw [hr] at hc
+      have := congrArg MuxL.out hc
+      rw [ho] at this
+      simp only at this
+      have hl := congrArg List.length this
+      simp at hl
+  obtain ⟨htc, hts⟩ := hdrain hcm hsm
+  refine ⟨hcm, hsm, ?_⟩
+  intro f hfm
+  obtain ⟨i, hi⟩ := List.getElem?_of_mem hfm
+  obtain ⟨fs1, fs2, _, _⟩ := hfs f hfm
+  constructor
+  · intro p hp
+    have hr := step_fix hd (hcb .client i)
+    simp only [World.stepRaw, World.cbC, hi, hp] at hr
+    cases hcbk : p.callback w.cm f.app fullIo with
+    | died =>
+      rw [hcbk] at hr
+      have := congrArg World.died hr
+      simp only at this
+      rw [hd] at this; cases this
+    | ok p' m' e' =>
+      rw [hcbk] at hr
+      have h1 : m' = w.cm := by simpa using congrArg World.cm hr
+      have h2 := congrArg (fun x => x.flows[i]?) hr
+      simp only [modifyAt_getElem?, ↓reduceIte, hi, Option.map_some, Option.some.injEq] at h2
+      have h3 : p' = p := by
+        have := congrArg Flow.c h2
+        simp only [hp, Option.some.injEq] at this
+        exact this
+      have h4 : e' = f.app := by simpa using congrArg Flow.app h2
+      subst h1; subst h3; subst h4
+      exact handler_fix_quiet _ _ _ (fs1 _ hp).1 htc hcbk _ rfl
+  · intro p hp
+    have hr := step_fix hd (hcb .server i)
+    simp only [World.stepRaw, World.cbS, hi, hp] at hr
+    cases hcbk : p.callback w.sm f.dst fullIo with
+    | died =>
+      rw [hcbk] at hr
+      have := congrArg World.died hr
+      simp only at this
+      rw [hd] at this; cases this
+    | ok p' m' e' =>
+      rw [hcbk] at hr
+      have h1 : m' = w.sm := by simpa using congrArg World.sm hr
+      have h2 := congrArg (fun x => x.flows[i]?) hr
+      simp only [modifyAt_getElem?, ↓reduceIte, hi, Option.map_some, Option.some.injEq] at h2
+      have h3 : p' = p := by
+        have := congrArg Flow.s h2
+        simp only [hp, Option.some.injEq] at this
+        exact this
+      have h4 : e' = f.dst := by simpa using congrArg Flow.dst h2
+      subst h1; subst h3; subst h4
+      exact handler_fix_quiet _ _ _ (fs2 _ hp).1 hts hcbk _ rfl
+
 /-! ### The same at the level of the select loop: one pass in which the tunnel was readable -/
 
 /-- What a handler looks like right after its own callback. -/
@@ -820,5 +930,39 @@ example :
       (f.c.map (·.ok), f.s.map (·.ok), f.app.delivered, f.dst.delivered, f.app.sawShut, f.dst.sawShut)) =
       [(some false, some false, [9], [1, 2, 3], true, true)] := by
   refine ⟨(quietB_iff _).mp (by decide +kernel), by decide +kernel, by decide +kernel⟩
+
+/-- The two together — the property's last sentence as one statement.  In every reachable, alive
+state that the select loop's own moves cannot change, no flow is stuck with undelivered data or
+half open: each endpoint that is still open has received exactly what the tunnel read from its
+peer, each close has reached the other endpoint's socket, and a flow closed on both sides is shut
+on all four sides and unregistered on both ends. -/
+theorem C02_stuck_is_complete (w0 : World) (h0 : Fresh w0) (hf : w0.cm.tooFull = false ∧ w0.sm.tooFull = false)
+    (steps : List Step) (hg : ∀ st ∈ steps, GoodStep st) (hn : (chans (w0.run steps)).Nodup)
+    (hd : (w0.run steps).died = none)
+    (hdc : (w0.run steps).step (.deliver .client .ok) = w0.run steps)
+    (hds : (w0.run steps).step (.deliver .server .ok) = w0.run steps)
+    (hcb : ∀ e i, (w0.run steps).step (.cb e i fullIo) = w0.run steps) :
+    ∀ f ∈ (w0.run steps).flows,
+      (f.dst.sawShut = false → f.app.consumed = f.dst.delivered) ∧
+      (f.app.sawShut = false → f.dst.consumed = f.app.delivered) ∧
+      (f.app.eofIn = true → f.app.pending = [] → f.dst.sawShut = true) ∧
+      (f.dst.eofIn = true → f.dst.pending = [] → f.app.sawShut = true) := by
+  intro f hfm
+  have hq := C02_no_stuck_state w0 h0.1 hf steps hd hdc hds hcb
+  obtain ⟨_, a, b, c, d, _⟩ := C02_quiet_complete w0 h0 steps hg hn hd hq f hfm
+  exact ⟨a, b, c, d⟩
+
+/-- The hypotheses of `C02_no_stuck_state` are met by a reachable state: the world of `demo3` (a
+whole connection run to the end) is a fixed point of every move of the loop — checked here for the
+two deliveries and the callbacks of its one flow. -/
+example :
+    let w : World := ({} : World).run demo3
+    w.died = none ∧ w.cm.out = [] ∧ w.sm.out = [] ∧ w.flows.length = 1 ∧
+    (w.step (.cb .client 0 fullIo)).flows.map (fun f => (f.c.map (·.ok), f.app.delivered)) =
+      w.flows.map (fun f => (f.c.map (·.ok), f.app.delivered)) ∧
+    (w.step (.cb .server 0 fullIo)).flows.map (fun f => (f.s.map (·.ok), f.dst.delivered)) =
+      w.flows.map (fun f => (f.s.map (·.ok), f.dst.delivered)) := by
+  intro w
+  exact ⟨by decide +kernel, by decide +kernel, by decide +kernel, by decide +kernel, by decide +kernel, by decide +kernel⟩
 
 end Sshuttle.Tunnel
